@@ -435,7 +435,7 @@ def note_recount_risk(R, model, pre_reset, ops):
                     high[sid] = rs.receiver.highest_offset if rs is not None else 0
             end = op["off"] + op["len"] if op["kind"] == "STREAM" else op["final"]
             if sid in reset and reset[sid] > high[sid] and end > high[sid]:
-                model.diag_overcount = True
+                model.diag_risk_now = True  # this packet only
             if op["kind"] == "RESET_STREAM":
                 reset.setdefault(sid, end)
             else:
@@ -450,7 +450,7 @@ def recount_evidence(R, model):
     try:
         if not model.resets:
             return False
-        if getattr(model, "diag_overcount", False) or R._local_max_data.used > model.conn_hi:
+        if getattr(model, "diag_overcount", False) or getattr(model, "diag_risk_now", False) or R._local_max_data.used > model.conn_hi:
             return True
         # R stopped somewhere inside the packet: its counter must equal the peer's total after one of the prefixes
         if R._local_max_data.used not in getattr(model, "diag_prefix_totals", [R._local_max_data.used]):
@@ -549,6 +549,7 @@ def step_packet(res, case, pup, model, ops, R, no_cycle=False):
 
     verdicts = []
     pre_reset = {sid: st.final for sid, st in model.streams.items() if st.reset}
+    model.diag_risk_now = False
     model.diag_prefix_totals = [model.conn_hi]
     for op in ops:
         v = model.classify(op)
